@@ -103,3 +103,10 @@ claim("C05", "file-content monitor: every file written by save_cog_with_dask(...
       "level stored before larger ones, level-0 decode equals the source, nearest overviews drawn from their 2x2 parent block; sink history (ids, sizes >= 4096 but the last, finalise once, "
       "sum = file size). ~100 files quick / 1e4 thorough over shapes 1..200, 3 layouts, 8 dtypes, 8 blocksize lists, 4 compressions, random topological orders and 2-8 threads.",
       _TB + " Known finding K4 (band-first cubes) is classified by mechanism.", "DESIGN.md 5/C05")
+
+claim("C18", "deterministic thread-schedule controller (sys.monitoring LINE yield points + cooperative lock + modelled linearizable distributed Variable/Lock) with a history checker over a fake S3 client's single log; file-system audit hook for the file sink; limit accessors enumerated",
+      "A: every schedule with <= 2 preemptions of 2 concurrent first writes (in-process path: exhaustive; cluster paths: capped DFS) and <= 1 preemption of 3, plus seeded random walks, ~1e4 "
+      "schedules quick / 4e5 thorough, each judged: exactly one create, all upload_part and the complete under that id, no writer exception, no deadlock; real in-process distributed.Client "
+      "rounds cross-check the modelled primitives; B: MPUFileSink.finalise on seeded part lists (sizes incl. 0, any order, relocated parts dir): destination == concatenation, parts and dir gone, "
+      "bystander untouched per audit hook; C: all subsets of the four limit keywords reported back, max > min.",
+      _TB + " Interleavings are statement-granular; real S3 and multi-process clusters are not available offline.", "DESIGN.md 5/C18")
